@@ -1,6 +1,7 @@
 package main
 
 import (
+	test3pb "google.golang.org/protobuf/internal/testprotos/test3"
 	"sort"
 	"bufio"
 	"bytes"
@@ -90,6 +91,11 @@ func rebuild(c *C, m protoreflect.Message) protoreflect.Message {
 func runDet(c *C) {
 	c.R.Rule = "each random content (about 40 root types x {generated, dynamicpb}) is built 5 ways (reflection fill, Clone, field-by-field rebuild in shuffled order with shuffled map insertion and overwritten map entries, Merge into empty, decode of its own default encoding) and marshalled deterministically 2x per construction; all byte strings must coincide with each other, with the model's encodeDet, and with a re-marshal in a second process. Converse: messages with identical deterministic bytes must be proto.Equal. Non-trivial = a map with >= 2 entries or >= 2 populated fields; distinct by bytes."
 	rs := roots(c)
+	for _, r := range rs {
+		for _, dyn := range []bool{false, true} {
+			extTripleCase(c, r, dyn) // converse of C05: identical deterministic bytes => Equal, in both argument orders
+		}
+	}
 	per := c.N(30, 1200)
 	var childLines []string
 	var childWant []string
@@ -278,6 +284,25 @@ func requiredCase(c *C, r *Root, m protoreflect.Message, dyn bool) {
 		c.Check((uerr == nil) == after, fmt.Sprintf("Unmarshal{Merge:true} into an existing target: err=%v, resulting tree initialized=%v", uerr, after), in2, "")
 		c.Hist(fmt.Sprintf("merge-target-initialized:%v/result:%v", want, after))
 	}
+	// a message decoded WITHOUT AllowPartial (so "required fields were checked" is recorded for its lazy fields),
+	// then made partial through the API: expanded lazy children must be re-examined
+	if want && c.Rand.Intn(2) == 0 {
+		for _, lazy := range []bool{true, false} {
+			m4 := m.New()
+			if (proto.UnmarshalOptions{NoLazyDecoding: !lazy}).Unmarshal(b, m4.Interface()) != nil {
+				continue
+			}
+			if what := breakRequired(c, m4, 0); what != "" {
+				in3 := map[string]any{"type": r.Name, "family": family(dyn), "bytes": vh.Hex(b), "lazy": lazy, "then": what}
+				after := refInit(m4)
+				chk := proto.CheckInitialized(m4.Interface()) == nil
+				c.Check(chk == after, fmt.Sprintf("after a complete decode and %s: CheckInitialized says %v, required fields all set = %v", what, chk, after), in3, "")
+				_, merr := proto.Marshal(m4.Interface())
+				c.Check((merr == nil) == after, fmt.Sprintf("after a complete decode and %s: Marshal err=%v, initialized=%v", what, merr, after), in3, "")
+				c.Hist("decoded-then-broken")
+			}
+		}
+	}
 	if c.HasModel() {
 		w := "missing"
 		if want {
@@ -290,6 +315,39 @@ func requiredCase(c *C, r *Root, m protoreflect.Message, dyn bool) {
 	if !want && len(b) < 40 {
 		c.Sample(map[string]any{"type": r.Name, "bytes": vh.Hex(b), "initialized": want})
 	}
+}
+
+// breakRequired clears one required field somewhere in the tree (through Mutable, which expands lazy children)
+// or replaces a message holding required fields by an empty one; returns a description, "" if nothing was done.
+func breakRequired(c *C, m protoreflect.Message, depth int) string {
+	md := m.Descriptor()
+	type sub struct {
+		fd protoreflect.FieldDescriptor
+		m  protoreflect.Message
+	}
+	var subs []sub
+	m.Range(func(fd protoreflect.FieldDescriptor, v protoreflect.Value) bool {
+		if fd.Message() != nil && !fd.IsList() && !fd.IsMap() {
+			subs = append(subs, sub{fd, nil})
+		}
+		return true
+	})
+	if len(subs) > 0 && depth < 3 && c.Rand.Intn(3) != 0 {
+		x := subs[c.Rand.Intn(len(subs))]
+		if c.Rand.Intn(4) == 0 && x.fd.Message().RequiredNumbers().Len() > 0 {
+			m.Set(x.fd, m.NewField(x.fd)) // replace by an empty message
+			return "Set(" + string(x.fd.Name()) + ", empty)"
+		}
+		if w := breakRequired(c, m.Mutable(x.fd).Message(), depth+1); w != "" {
+			return string(x.fd.Name()) + "." + w
+		}
+	}
+	if nums := md.RequiredNumbers(); nums.Len() > 0 {
+		fd := md.Fields().ByNumber(nums.Get(c.Rand.Intn(nums.Len())))
+		m.Clear(fd)
+		return "Clear(" + string(fd.Name()) + ")"
+	}
+	return ""
 }
 
 // lazyRequiredSig classifies DESIGN finding 22 (required check skipped inside unexpanded lazy submessages).
@@ -337,6 +395,7 @@ func runUtf8(c *C) {
 	rs := roots(c)
 	per := c.N(60, 600)
 	editionsExtCase(c)
+	proto3ExtCase(c)
 	for _, r := range rs {
 		r.Flat.Send(c)
 		for i := 0; i < per && !c.Failed(); i++ {
@@ -351,6 +410,67 @@ func runUtf8(c *C) {
 // editionsExtCase: an edition-2023 file with default features (utf8_validation = VERIFY, known by
 // construction, not asked of the implementation): a string *extension* field must be validated like a
 // regular string field.
+// proto3ExtCase: string extensions declared in a proto3 file (test3/test_extension.proto extends
+// google.protobuf.MessageOptions): singular, proto3-optional and REPEATED; validated in both directions on the
+// table-driven path (generated MessageOptions) and on the reflection path (dynamicpb), for every bad sample.
+func proto3ExtCase(c *C) {
+	bads := []string{"a\xff", "\xc0\x80", "\xed\xa0\x80", "\xe2\x82", "\x80", "\xf4\x90\x80\x80"}
+	goods := []string{"", "ok", "h\u00e9llo", "\ufffd", "\U0010ffff"}
+	md := (&descriptorpb.MessageOptions{}).ProtoReflect().Descriptor()
+	for _, xt := range []protoreflect.ExtensionType{test3pb.E_OptionalStringExt, test3pb.E_OptionalOptionalStringExt, test3pb.E_RepeatedStringExt} {
+		xd := xt.TypeDescriptor()
+		for i, sample := range append(append([]string{}, bads...), goods...) {
+			bad := i < len(bads)
+			for _, dyn := range []bool{false, true} {
+				var m protoreflect.Message = (&descriptorpb.MessageOptions{}).ProtoReflect()
+				if dyn {
+					m = dynamicpb.NewMessage(md)
+				}
+				in := map[string]any{"type": "google.protobuf.MessageOptions", "family": family(dyn), "extension": string(xd.FullName()), "value": vh.Hex([]byte(sample))}
+				func() {
+					defer c.Recover("proto3 string extension", in, "")
+					if xd.IsList() {
+						l := m.Mutable(xd).List()
+						l.Append(protoreflect.ValueOfString("fine"))
+						l.Append(protoreflect.ValueOfString(sample))
+					} else {
+						m.Set(xd, protoreflect.ValueOfString(sample))
+					}
+					_, err := partial.Marshal(m.Interface())
+					c.Check((err != nil) == bad, fmt.Sprintf("Marshal err=%v for a proto3 string extension holding %q (invalid UTF-8: %v)", err, sample, bad), in, "")
+					// the same next to other populated extensions with lower and higher numbers: the verdict must not
+					// depend on what else is in the extension map
+					for _, other := range []protoreflect.ExtensionType{test3pb.E_OptionalInt32Ext, test3pb.E_OptionalOptionalInt32Ext, test3pb.E_RepeatedInt32Ext} {
+						od := other.TypeDescriptor()
+						mm := proto.Clone(m.Interface()).ProtoReflect()
+						if od.IsList() {
+							mm.Mutable(od).List().Append(protoreflect.ValueOfInt32(7))
+						} else {
+							mm.Set(od, protoreflect.ValueOfInt32(7))
+						}
+						_, err2 := partial.Marshal(mm.Interface())
+						_, err3 := partialDet.Marshal(mm.Interface())
+						in["also_set"] = string(od.FullName())
+						c.Check((err2 != nil) == bad && (err3 != nil) == bad, fmt.Sprintf("Marshal err=%v / deterministic err=%v for a proto3 string extension holding %q next to another extension (invalid UTF-8: %v)", err2, err3, sample, bad), in, "")
+					}
+					delete(in, "also_set")
+					// wire side: the same record built by hand
+					var b []byte
+					if xd.IsList() {
+						b = protowire.AppendString(protowire.AppendTag(b, xd.Number(), protowire.BytesType), "fine")
+					}
+					b = protowire.AppendString(protowire.AppendTag(b, xd.Number(), protowire.BytesType), sample)
+					in["bytes"] = vh.Hex(b)
+					m2 := m.New()
+					uerr := unm(false).Unmarshal(b, m2.Interface())
+					c.Check((uerr != nil) == bad, fmt.Sprintf("Unmarshal err=%v for a proto3 string extension record holding %q (invalid UTF-8: %v)", uerr, sample, bad), in, "")
+				}()
+				c.Case(fmt.Sprintf("p3ext/%s/%d/%v", xd.Name(), i, dyn), true)
+			}
+		}
+	}
+}
+
 func editionsExtCase(c *C) {
 	fdp := &descriptorpb.FileDescriptorProto{}
 	if err := prototext.Unmarshal([]byte(`name: "verif_c13_ext.proto" package: "verif.c13" syntax: "editions" edition: EDITION_2023
@@ -545,6 +665,9 @@ func runEqual(c *C) {
 				if i%3 == 0 {
 					unknownShapeCase(c, r, dyn)
 				}
+				if i == 0 {
+					extTripleCase(c, r, dyn)
+				}
 			}
 		}
 	}
@@ -601,6 +724,35 @@ func extShapeCase(c *C, r *Root, dyn bool) {
 	}
 	c.Hist("ext-shape")
 	c.Case(sx+"|"+sy+"ext", true)
+}
+
+// extTripleCase: (x, y, z) = repeated extension present-but-empty / one element / absent: x and z are equal in
+// both directions (and have identical deterministic bytes), y differs from both, in both directions, and
+// proto.Equal agrees with protoreflect.Value.Equal.
+func extTripleCase(c *C, r *Root, dyn bool) {
+	mt := r.MT
+	if dyn {
+		mt = r.DT
+	}
+	for _, tr := range extShapeTriples(c, r, mt) {
+		x, y, z := tr[0], tr[1], tr[2]
+		in := map[string]any{"type": r.Name, "family": family(dyn), "x": r.Flat.Snap(x), "y": r.Flat.Snap(y), "z": r.Flat.Snap(z), "shape": "x: repeated extension present but empty; y: one element; z: absent"}
+		func() {
+			defer c.Recover("equal(extension triples)", in, "")
+			eq := func(a, b protoreflect.Message) bool { return proto.Equal(a.Interface(), b.Interface()) }
+			veq := func(a, b protoreflect.Message) bool {
+				return protoreflect.ValueOfMessage(a).Equal(protoreflect.ValueOfMessage(b))
+			}
+			c.Check(eq(x, z) && eq(z, x), fmt.Sprintf("an empty repeated extension must equal an absent one: Equal(x,z)=%v Equal(z,x)=%v", eq(x, z), eq(z, x)), in, "")
+			c.Check(!eq(x, y) && !eq(y, x) && !eq(z, y) && !eq(y, z), fmt.Sprintf("a non-empty repeated extension equals an empty/absent one: Equal(x,y)=%v (y,x)=%v (z,y)=%v (y,z)=%v", eq(x, y), eq(y, x), eq(z, y), eq(y, z)), in, "")
+			c.Check(veq(x, z) == eq(x, z) && veq(x, y) == eq(x, y) && veq(y, x) == eq(y, x), "proto.Equal disagrees with protoreflect.Value.Equal on extension shapes", in, "")
+			dx, e1 := partialDet.Marshal(x.Interface())
+			dz, e2 := partialDet.Marshal(z.Interface())
+			c.Check(e1 == nil && e2 == nil && bytes.Equal(dx, dz), "deterministic bytes of (empty repeated extension) and (absent) differ", in, "")
+		}()
+		c.Hist("ext-triple")
+		c.Case(fmt.Sprint(in["x"], in["y"]), true)
+	}
 }
 
 // unknownShapeCase: two messages with the same known content whose unknown fields are the same RECORDS in a
@@ -765,6 +917,18 @@ func perturb(c *C, m protoreflect.Message) bool {
 			return false
 		}
 		k := keys[c.Rand.Intn(len(keys))]
+		if c.Rand.Intn(2) == 0 {
+			// same number of entries, same values, different key set: move one entry to a fresh key
+			for try := 0; try < 20; try++ {
+				k2 := scalar(c, fd.MapKey(), Opts{}).MapKey()
+				if !mp.Has(k2) {
+					v := mp.Get(k)
+					mp.Set(k2, v)
+					mp.Clear(k)
+					return true
+				}
+			}
+		}
 		if fd.MapValue().Message() != nil {
 			return perturb(c, mp.Get(k).Message())
 		}
